@@ -8,6 +8,7 @@ import (
 	"fmt"
 	"os"
 	"path"
+	"path/filepath"
 	"sort"
 	"strings"
 
@@ -173,6 +174,12 @@ func (v *vdrRun) monitors() {
 				named = append(named, v.rel(t))
 				v.hist("named-through-symlink")
 			}
+		}
+	}
+	// … and a path named through a link names the resolved location
+	for _, n := range append([]string(nil), namedAbs...) {
+		if r, err := filepath.EvalSymlinks(n); err == nil && r != n {
+			namedAbs = append(namedAbs, r)
 		}
 	}
 	if len(named) > nTop {
